@@ -361,7 +361,7 @@ macro_rules! lerp_impl_integer {
                     num_traits::Float::round((from as f32)*((1f32)-factor) + (to as f32)*factor) as Self
                 }
                 fn lerp_unclamped(from: Self, to: Self, factor: f32) -> Self {
-                    num_traits::Float::round(self::MulAdd::mul_add(factor, (to - from) as f32, from as f32)) as Self
+                    num_traits::Float::round(self::MulAdd::mul_add(factor, (to as f32) - (from as f32), from as f32)) as Self
                 }
             }
             impl Lerp<f64> for $T {
@@ -370,7 +370,7 @@ macro_rules! lerp_impl_integer {
                     num_traits::Float::round((from as f64)*((1f64)-factor) + (to as f64)*factor) as Self
                 }
                 fn lerp_unclamped(from: Self, to: Self, factor: f64) -> Self {
-                    num_traits::Float::round(self::MulAdd::mul_add(factor, (to - from) as f64, from as f64)) as Self
+                    num_traits::Float::round(self::MulAdd::mul_add(factor, (to as f64) - (from as f64), from as f64)) as Self
                 }
             }
             impl<'a> Lerp<f32> for &'a $T {
